@@ -158,7 +158,7 @@ func checkSkel(s Skel) error {
 
 // ---- (b) sampled programs -------------------------------------------------------------------------------
 
-var feats = gen.Features{NestedDisj: true, TopDisj: true, Call: true, Cut: true, Ite: true, Neg: true, AllSol: true, Catch: true, Lib: true, Deep: true}
+var feats = gen.Features{NestedDisj: true, TopDisj: true, Call: true, Cut: true, Ite: true, Neg: true, AllSol: true, Catch: true, Lib: true, Deep: true, Flags: true, Strings: true}
 
 func nontrivial(o diff.Outcome) bool {
 	st := o.Ref.Stats
@@ -283,6 +283,9 @@ func TestProp(t *testing.T) {
 		p := gen.GenProgram(feats).Draw(t, "program")
 		o := diff.Run(p, diff.DefaultOpts())
 		r.Label("sampled")
+		if p.DQ != "" || p.UnknownFail {
+			r.Label("with_non_default_flags")
+		}
 		if p.Deep {
 			r.Label("with_a_deep_recursion")
 		}
